@@ -296,5 +296,26 @@ _ADD = {
 for _k, (_lt, _rule) in _ADD.items():
     PROPS[_k]['level_text'] = PROPS[_k]['level_text'] + _lt
     PROPS[_k]['rule'] = PROPS[_k]['rule'] + _rule
+# round-4 additions (rule text only, appended after the addenda above)
+_ADD4 = {
+    'C01': ' Plus: clusters in the linked form (an EDS cluster naming an endpoint set of the universe): one type\'s responses never change what another type serves; whether a type is subscribed is the script\'s own knowledge (start-up, lookups), not read from the client.',
+    'C02': ' Plus: the never-subscribed rule is judged against the history\'s knowledge of subscriptions (a client that wrongly believes a type subscribed cannot steer the check away), also after reconnects.',
+    'C03': ' Plus: linked clusters; the script\'s own subscription knowledge in the generator.',
+    'C04': ' Plus: drainRace - the stream fails while the sender works through 700 queued requests on a slow transport (the reconnect\'s drain must not wait; re-subscription and a later lookup within seconds).',
+    'C05': ' Plus: lookups with kinds that are not resource kinds (-7, -1, 0, 6, 10, 2^20: rejected at once, nothing left behind; theorem unknown_kind_rejected over the regenerated knownKinds); a transient stream failure while lookups wait; a party blocked where nothing can release it (a lock never given back) ends the schedule and is reported.',
+    'C06': ' Plus: a transient stream failure + reconnect while lookups wait (in the select and before it): they are not concerned, the response arrives on the new stream; stuck-party detection as in C05.',
+    'C07': ' Plus: lockStress - a response with 900 subscribed names is filtered while two goroutines keep changing the interest set of its type (rds, eds, cds): both sides finish; stream failure while lookups wait; stuck-party detection.',
+    'C08': ' Plus: regular expressions the engine rejects next to further conditions (the conditions go through the decoder\'s BuildMatchers model), up to three conditions per route, virtual hosts with 16-25 routes.',
+    'C10': ' Plus: c10History - the resolver on the real manager across an update history: back-to-back partial endpoint pushes for different names behind a slow update handler, pushes that re-use the previous version string for new endpoints.',
+    'C11': ' Plus: token buckets with fill intervals (absent, empty, sub-second, whole seconds); responses of 64-133 resources; every fourth response delivered twice.',
+    'C12': ' Plus: responses of 64-133 resources (every resource keeps its own name and content); every fourth response delivered twice.',
+    'C13': ' Plus: fill intervals; large responses; every fourth response delivered twice (the second verdict equals the first).',
+    'C14': ' Plus: address lists in the control plane\'s own order (unsorted, with a repetition: the first binds), services the table knows under another domain only (unbound) or under both domains.',
+    'C15': ' Plus: routes with header conditions - including expressions the engine rejects - and call metadata that carries the keys.',
+    'C18': ' Plus: inbound chains in the usual Istio shape (TypedStruct filters of other kinds in front of the rate limit and a router behind it; the rate limit itself as a TypedStruct); a limiter option that has lost its UpdateControl when the server starts is a reported failure.',
+    'C19': ' Plus: worlds whose sweep empties a whole type; the re-subscription after an eviction must echo the nonce of the latest response of its type (else a protocol-following control plane ignores it).',
+}
+for _k, _r in _ADD4.items():
+    PROPS[_k]['rule'] = PROPS[_k]['rule'] + _r
 PROPS['C07']['level_note'] = 'PARTIAL: data-race freedom is the Go memory model (not modelled; the locking discipline, a dump-vs-update exclusion scenario and the race detector of the thorough tier are what is checked). Deadlock freedom: mutex order + progress of lookups + the request path at capacity (Flow layer); S12 and S15 are recorded findings. Trusted: Lean kernel; Go runtime; extractor (lockEdges, updateOrder, flow facts, regShape); harness.'
 PROPS['C07']['assumptions'] = [a for a in PROPS['C07']['assumptions'] if 'outside the model (documented limitation S12)' not in a] + ['the lock-nesting edges come from a syntactic intra-package call graph (function names)']
